@@ -1182,7 +1182,16 @@ def run_e2(spec, monitor_factory, path, prefix_ok=False, trace=False, lenient=Fa
                     if k == len(ends) - 1:
                         break
                     if not w.between:
-                        raise HarnessError('replay: a run ended although the path did not split it here')
+                        # the real run() returned without its end ever being dispatched through step()
+                        due = [e for e in w.env._events if e.time <= t_end and e.event_type != EventType.TERMINATE]
+                        if not due:
+                            # nothing was skipped: an implementation may legitimately end a run without a TERMINATE
+                            # event; this harness cannot follow it (not a verdict)
+                            raise HarnessError('replay: a run ended although the path did not split it here')
+                        v = Violation('run_end', f'simulate({t_end - t_prev}) started at t={t_prev} returned without dispatching '
+                                                 f'the events of that run ({len(due)} event(s) due no later than t={t_end} still pending)')
+                        v.mc_steps = state['n']
+                        raise v
                     while True:
                         label = take()
                         if label[0] == 'xop':
